@@ -52,7 +52,11 @@ LEVEL_TEXT = ('Every spec of a complete finite box of spec shapes is parsed by t
               'property are shape dependent (a dropped axis, zip for product, a name bound to the wrong class), '
               'so a complete sweep of small shapes decides it inside the box.')
 LEVEL_NOTE = ('Trusted: mc/gf2.py; the qubit-count formulas of the four code classes used in the expansion part; '
-              'decoder default parameters are read from the constructor signature of the class of that name. Not '
+              'decoder default parameters are read from the constructor signature of the class of that name. '
+              'Isolation between runs is decided on what the property observes, the built simulations (mutating '
+              'the parameters one simulation records or hands out must not change another); that equal-valued runs '
+              'returned by expand_input_ranges alias the caller\'s parameter containers is only counted '
+              '(expanded_runs_aliasing_a_parameter_container), nothing in panqec mutates them. Not '
               'covered: more than 3 values per axis, the splitting method, specs holding both "runs" and "ranges", '
               'count_runs, user-registered classes.')
 RULE = ('registry: every key of the three registries and every exported code class (distinct = distinct name). '
@@ -365,6 +369,17 @@ def _spec_level_ref(t):
 # --------------------------------------------------------------------------------------------
 # cases
 
+def _rt_noises(name):
+    """plain noise sets, then a biased noise under every deformation configuration the class offers"""
+    noises = [dict(nz) for nz in _RT_NOISE]
+    for dn, kw in F.deformations(name):
+        nz = {'r_x': 0.1, 'r_y': 0.2, 'r_z': 0.7, 'deformation_name': dn}
+        if kw:
+            nz['deformation_kwargs'] = dict(kw)
+        noises.append(nz)
+    return noises
+
+
 def _rt_sizes(tier, name):
     b = BOUNDS[tier]
     if tier == 'quick':
@@ -381,8 +396,9 @@ def cases(tier, seed):
     rt = []
     for name in F.CLASSES:
         for s in _rt_sizes(tier, name):
-            rt.append({'part': 'roundtrip', 'cls': name, 'size': list(s)})
-    rt.sort(key=lambda c: (F.n_qubits(c['cls'], c['size']) or 0, c['cls'], c['size']))
+            for ni in range(len(_rt_noises(name))):
+                rt.append({'part': 'roundtrip', 'cls': name, 'size': list(s), 'noise': ni})
+    rt.sort(key=lambda c: (F.n_qubits(c['cls'], c['size']) or 0, c['cls'], c['size'], c['noise']))
     out += rt
     ex = []
     for fi in range(b['families']):
@@ -556,12 +572,9 @@ def eval_roundtrip(case):
         res['skipped'] += 1              # not constructible (e.g. D12b sizes): C01's business
         res['evals'] += 1
         return res
-    noises = [dict(nz) for nz in _RT_NOISE]
-    for dn, kw in F.deformations(name):
-        nz = {'r_x': 0.1, 'r_y': 0.2, 'r_z': 0.7, 'deformation_name': dn}
-        if kw:
-            nz['deformation_kwargs'] = dict(kw)
-        noises.append(nz)
+    noises = _rt_noises(name)
+    if case.get('noise') is not None:                # one noise set per work item (balance)
+        noises = [noises[case['noise']]]
     dec_classes = []
     for k in sorted(DECODERS):
         D = DECODERS[k]
@@ -754,7 +767,8 @@ def eval_roundtrip(case):
     _bump(res, 'violations_total', n_viol)
     res['violations'] = V[:5]
     res['outcomes'].append('rt|%s|%d|%d|%d' % (name, nkd[0], len(sims), n_viol))
-    res['samples'].append({'config': '%s%s' % (name, tuple(size)), 'simulations_round_tripped': len(sims),
+    res['samples'].append({'config': '%s%s' % (name, tuple(size)), 'noise': noises[0] if len(noises) == 1
+                           else 'all', 'simulations_round_tripped': len(sims),
                            'example_inputs': recorded_runs[-1]})
     return res
 
